@@ -103,6 +103,8 @@ func (c01) Exec(seed int64, i int, tier string) Record {
 		return c01LitLeftCase(CaseRng(seed, "C01", i))
 	case 14:
 		return c01ReentCase(CaseRng(seed, "C01", i))
+	case 10:
+		return c01SecondCallCase(CaseRng(seed, "C01", i))
 	}
 	r := CaseRng(seed, "C01", i)
 	o := DefaultOpts()
@@ -288,6 +290,45 @@ func genNestedRootCase(r *Rng) (interface{}, *Path) {
 		p.Steps = append(p.Steps, &Step{Kind: StChild, Key: "d"})
 	}
 	return doc, p
+}
+
+// ---------- class second-call: the parsed function called again after the SAME document object was updated in place ----------
+//
+// What a parsed function returns is what the path selects from the document as it is NOW: the first call (result
+// discarded) must leave nothing behind in the parsed tree that answers for the old content. The record, the
+// specification and the model all see the updated document.
+func c01SecondCallCase(r *Rng) Record {
+	o := DefaultOpts()
+	o.RootBias = 50
+	var doc interface{}
+	var p *Path
+	cfg := Config(false, nil)
+	for try := 0; try < 6; try++ {
+		doc, p = GenCase(r, o)
+		if Run(Render(p, nil), doc, &cfg).OK {
+			break
+		}
+	}
+	text := Render(p, r)
+	jn := r.Chance(30)
+	if jn {
+		doc = ToJnum(doc)
+	}
+	updated := false
+	after := func(f Parsed) func() string {
+		SafeCall(f, doc)
+		variant := c05Mutate(r, doc, 60)
+		if jn {
+			variant = ToJnum(variant)
+		}
+		updated = c05OverwriteInPlace(doc, variant)
+		return func() string { return "" }
+	}
+	rec := c01Check(text, p, p.Sexp(), doc, jn, &cfg, []string{"class:second-call-after-in-place-update"}, map[string]interface{}{}, after)
+	if !updated {
+		rec.Tags = append(rec.Tags, "second-call:document-not-updatable")
+	}
+	return rec
 }
 
 // ---------- class lit-left: the literal written on the LEFT of a `$`-path / `@`-path ----------
